@@ -12,7 +12,7 @@
    have the same right edge", formerly a separate conjunct of [wf], is the consequence C15_ends_agree.
    Missing attributes: [no_nan k s] = the simulant's key attributes are present and none of its k parameter attributes
    is NaN; [numeric k s] = none of them is a non-number (C15_non_numeric: those are rejected).  What the code does otherwise is transcribed in the model and stated by C15_nan_parameter / C15_missing_key
-   (candidate finding F-NAN, awaiting triage: a NaN parameter silently selects the LAST bin and is never rejected - not
+   (open finding F-AF in known_findings.json - listed, not repaired: a NaN parameter silently selects the LAST bin and is never rejected - not
    even with extrapolation off; a missing key silently yields a row of NaN).
    Requests are arbitrary label lists: a label may occur several times (each occurrence gets the simulant's row).
    Open finding F-N (known_findings.json): the `year` value is year + yday/365.25, which leaves the current calendar
@@ -52,7 +52,7 @@ Theorem C15_unknown_key : forall ext d k s, key_has_nan (skeys s) = false -> gro
   lookup_row ext d k s = Rejected EPopulation.
 Proof. exact lookup_row_unknown_key. Qed.
 
-(* THE CODE AS IT IS (candidate finding F-NAN).  A simulant whose attribute for parameter p is NaN is never rejected on
+(* THE CODE AS IT IS (open finding F-AF; the headline theorems carry the guard [no_nan] that excludes this class).  A simulant whose attribute for parameter p is NaN is never rejected on
    account of p - also with extrapolation off - and silently receives the LAST bin of p (np.digitize(NaN) = len(bins));
    its numeric parameters are treated as usual. *)
 Theorem C15_nan_parameter : forall ext d k s,
